@@ -15,7 +15,7 @@ FAC = 1.2 * (6 * np.pi**2) ** (2.0 / 3) / np.pi     # turns (grad_mul, tau_mul) 
 TOL_SPEC = {"se": 1, "se_ar2": 1, "se_a2r4": 1, "se_erf_rinv": 1, "se_ap": 1, "se_apr2": 1,
             "se_ap2r2": 1, "se_lapl": 1, "se_r2": None, "k": 1, "dot_grad": 1, "dot_rvec": None}
 EXCLUDE_KNOWN = {"sdmx_1d_definition"}     # regions of open known findings (generated cases avoid them, counted)
-TOL = {"definition_panel_median": 4e-2, "definition_worst_point_rel_to_max": 0.25, "fast_interpolators_vs_train_gen": 2e-3, "gaussian_vs_spline_plan": 0.2, "sdmx_fast_vs_slow": 1e-6,
+TOL = {"definition_panel_median": "min(4e-2, 1.5e-2 + 6 x ladder-refinement spread); doubled where theta vanishes in the tail", "definition_worst_point_rel_to_max": 0.25, "fast_interpolators_vs_train_gen": 2e-3, "gaussian_vs_spline_plan": 0.2, "sdmx_fast_vs_slow": 1e-6,
        "sdmx_definition": "max(4e-2, 2e-2 + 4 x spread), judged only where two refinements of the auxiliary ladder agree within 1e-2 (spread)"}
 
 
@@ -179,12 +179,16 @@ def definition_errors(nspec, mspec, dmspec, spin_channel, npts, seed, plan_type)
     pts = np.ascontiguousarray(grids.coords[idx])
     ref, _ = reference_features(nspec, mol, dm, pts)
     fast = _fast_reference_path(mol, pts, dm, settings, plan_type, aux_lambd=1.6)
+    # the same path on a finer exponent ladder (ratio 1.35, lower end / 16): how far the default ladder is from converged
+    fine = _fast_reference_path(mol, pts, dm, settings, plan_type, aux_lambd=1.35, alpha_min=float(settings.theta_params[0]) / 4096.0)
     assert fast.shape == ref.shape == (settings.nfeat, len(pts)), (fast.shape, ref.shape)
     out = []
     for k in range(ref.shape[0]):
         sc = float(np.max(np.abs(ref[k]))) + 1e-300
         d = np.abs(fast[k] - ref[k])
-        out.append((float(d.max() / sc), float(np.median(d / (np.abs(ref[k]) + 0.05 * sc))), sc))
+        den = np.abs(ref[k]) + 0.05 * sc
+        out.append((float(d.max() / sc), float(np.median(d / den)), sc, float(np.median(np.abs(fast[k] - fine[k]) / den)),
+                    float(np.median(np.abs(fine[k] - ref[k]) / den))))
     return out
 
 
@@ -196,8 +200,9 @@ def definition_errors(nspec, mspec, dmspec, spin_channel, npts, seed, plan_type)
                "maximum density vs a direct numpy quadrature, on an independent unpruned level-5 Becke grid, of the integrals "
                "written in docs/features/nldf.rst (exponent formula re-typed from the docs; B_i, C_i from grad_mul, tau_mul "
                "with the factor 1.2 (6 pi^2)^(2/3) / pi; se_erf_rinv normalised to 1 at r -> 0). Per feature: (i) the median "
-               "over the panel of the median-over-points relative error <= 4e-2 (calibrated on 1100 comparisons: typical "
-               "3e-4..2e-3, p90 <= 4e-3, worst single system 4e-2) -- sensitive to any systematic factor; (ii) the worst "
+               "over the panel of the median-over-points relative error <= min(4e-2, 1.5e-2 + 6 x the change of the feature "
+               "under a refinement of the exponent ladder) (1100 + 400 clean comparisons: typical 3e-4..2e-3, p90 <= 4e-3, "
+               "worst unresolved system 4e-2, never above a quarter of the adaptive bound) -- sensitive to any systematic factor; (ii) the worst "
                "point of any panel member within 0.25 of the feature maximum (calibrated worst 7.6e-2). Parameter sets whose "
                "theta exponent vanishes in the tail get 2x looser bounds; se_r2 and se_rvec dot products, which the docs "
                "call numerically hard, are counted, not judged. Non-trivial = max|ref| > 1e-6")
@@ -225,6 +230,13 @@ def nldf_definition(case, ctx):
         mx = float(max(p[k][0] for p in panel))
         tmed, tmax = (8e-2, 0.5) if tail_vanishing else (4e-2, 0.25)
         key = "%s/%s/%s" % (nspec["version"], lab, nspec["rho_mult"])
+        # resolution-adaptive bound for the panel median: the sampled 4e-2 is the worst *unresolved* system; where the
+        # default exponent ladder is converged (the same path on a ladder with ratio 1.35 and a 16x lower end moves the
+        # feature by `spr`), what is left is the reference quadrature and the angular / radial truncations: 1.5e-2 + 6 spr
+        # (over 400 clean panels the error never exceeded a quarter of that).  A wrong radial integral in the l >= 1
+        # channels of the r^2-type kernels (seeded change C02_7) shifts well-resolved features by 2-3 %: invisible at 4e-2.
+        spr = float(np.median([p[k][3] for p in panel]))
+        tmed = min(tmed, (3e-2 if tail_vanishing else 1.5e-2) + 6.0 * spr)
         ctx.measure("definition_panel_median/" + key, med / tmed)
         ctx.measure("definition_worst_point/" + key, mx / tmax)
         ctx.check(med <= tmed, ("definition", nspec["version"], lab, nspec["rho_mult"], "panel_median"), err=med, tol=tmed,
